@@ -33,11 +33,12 @@ pub struct SimResult {
 
 pub const CHUNK: usize = 256;
 
-pub fn run_jobs<J: Sync>(property: &str, jobs: &[J], build: &(dyn Fn(&J) -> SimSys + Sync), judge: &(dyn Fn(&SimSys, &mut Stats) -> JobOut + Sync), ctx: &WorkerCtx) -> SimResult {
+/// `njobs` job indices; `build(i)` decodes index i into a closed system (None = not part of the enumeration).
+pub fn run_jobs(property: &str, njobs: usize, build: &(dyn Fn(usize) -> Option<SimSys> + Sync), judge: &(dyn Fn(&SimSys, &mut Stats) -> JobOut + Sync), ctx: &WorkerCtx) -> SimResult {
     let next = AtomicUsize::new(0);
     let crumbs = crate::supervise::global_crumbs();
     let fine = crate::supervise::global_fine();
-    let nchunks = (jobs.len() + CHUNK - 1) / CHUNK;
+    let nchunks = (njobs + CHUNK - 1) / CHUNK;
     struct Part {
         runs: u64,
         events: u64,
@@ -70,8 +71,8 @@ pub fn run_jobs<J: Sync>(property: &str, jobs: &[J], build: &(dyn Fn(&J) -> SimS
                             if let Some(c) = crumbs {
                                 c.set(ti, ci as u64);
                             }
-                            for ji in ci * CHUNK..((ci + 1) * CHUNK).min(jobs.len()) {
-                                let sys = build(&jobs[ji]);
+                            for ji in ci * CHUNK..((ci + 1) * CHUNK).min(njobs) {
+                                let Some(sys) = build(ji) else { continue };
                                 if let Some(fc) = fine {
                                     fc.write(&json!({"property": property, "engine": "E4", "system": sys.to_json(), "message": "worker died (abort or hang) while simulating this system"}));
                                 }
@@ -106,7 +107,7 @@ pub fn run_jobs<J: Sync>(property: &str, jobs: &[J], build: &(dyn Fn(&J) -> SimS
             .collect();
         hs.into_iter().map(|h| h.join().expect("sim worker thread died")).collect()
     });
-    let mut res = SimResult { runs: 0, events: 0, nontrivial_runs: 0, distinct_outputs: 0, distinct_nontrivial_outputs: 0, stats: Stats::default(), reported: vec![], violation_counts: BTreeMap::new(), samples: vec![], jobs: jobs.len() };
+    let mut res = SimResult { runs: 0, events: 0, nontrivial_runs: 0, distinct_outputs: 0, distinct_nontrivial_outputs: 0, stats: Stats::default(), reported: vec![], violation_counts: BTreeMap::new(), samples: vec![], jobs: njobs };
     let mut outs: HashSet<u64> = HashSet::new();
     let mut nt: HashSet<u64> = HashSet::new();
     let mut all_v: Vec<(usize, Viol)> = vec![];
@@ -134,7 +135,7 @@ pub fn run_jobs<J: Sync>(property: &str, jobs: &[J], build: &(dyn Fn(&J) -> SimS
         if !seen.insert(v.sig.clone()) || res.reported.len() >= 40 {
             continue;
         }
-        let sys = build(&jobs[ji]);
+        let Some(sys) = build(ji) else { continue };
         res.reported.push(Rep {
             signature: v.sig.clone(),
             summary: format!("{}: client {:?} server {:?} trace {:?} delay {}ns: {}", v.sig, sys.client_names, sys.server_names, sys.trace, sys.delay_ns, v.msg),
